@@ -160,7 +160,7 @@ def run(ctx):
     shapes = set()
     for i in range(n):
         r = random.Random(ctx.rng.getrandbits(48))
-        g = m.Gen(r, size=1.0 if (not ctx.thorough or i % 4) else 3.0)
+        g = m.Gen(r, size=(1.0 if i % 7 else 2.5) if not ctx.thorough else (1.0 if i % 4 else 3.0))
         M = g.model()
         xml = m.XmlText(random.Random(r.getrandbits(48)) if i % 5 else None).render(M)
         cases["c%d" % i] = (M, xml)
